@@ -4,6 +4,7 @@ CONSTANTS
   Conns = {1, 2}
   Limit = 1
   Tmos = {0, 2, 3}
+  SrvTmos = {0, 2}
   MaxTime = 5
   TimerFromAdmission = FALSE
 INVARIANT Export
